@@ -89,10 +89,16 @@ type c06Builder struct {
 	regErr       interface{}
 	used         map[int]bool // arrangement kinds actually used
 	deferred     []func()
+	// onRegister receives what the handlers' OnRegister callbacks are told
+	onRegister func(marker string, s *res.Service, pattern string)
 }
 
 func (b *c06Builder) handler(r c06Route) res.Handler {
 	h := res.Handler{Call: map[string]res.CallHandler{r.Marker: nil}, Group: r.Group, Parallel: r.Parallel}
+	if b.onRegister != nil {
+		marker := r.Marker
+		h.OnRegister = func(s *res.Service, p res.Pattern, _ res.Handler) { b.onRegister(marker, s, string(p)) }
+	}
 	return h
 }
 
@@ -215,6 +221,9 @@ type c06Config struct {
 	arr      string
 	mux      *res.Mux
 	hits     *[]string // listener ids invoked
+	// registered: marker -> patterns reported to the handler's OnRegister callback
+	registered map[string][]string
+	service    *res.Service
 }
 
 // c06Build builds the mux for the routes; returns the panic value if
@@ -223,8 +232,10 @@ func c06Build(routes []ref.Route, rootPath string, service bool, choose func(int
 	hits := &[]string{}
 	cfg = &c06Config{routes: routes, rootPath: rootPath, hits: hits}
 	var root *res.Mux
+	cfg.registered = map[string][]string{}
 	if service {
-		root = res.NewService(rootPath).Mux
+		cfg.service = res.NewService(rootPath)
+		root = cfg.service.Mux
 	} else {
 		root = res.NewMux(rootPath)
 	}
@@ -232,6 +243,12 @@ func c06Build(routes []ref.Route, rootPath string, service bool, choose func(int
 	b := &c06Builder{choose: choose, root: root, listenerRoot: listenerRoot, used: map[int]bool{},
 		listenerFn: func(id string) func(*res.Event) {
 			return func(*res.Event) { *hits = append(*hits, id) }
+		},
+		onRegister: func(marker string, s *res.Service, pattern string) {
+			if s == nil || (cfg.service != nil && s != cfg.service) {
+				pattern = "<wrong service> " + pattern
+			}
+			cfg.registered[marker] = append(cfg.registered[marker], pattern)
 		}}
 	rel := make([]c06Route, len(routes))
 	for i, r := range routes {
@@ -247,6 +264,53 @@ func c06Build(routes []ref.Route, rootPath string, service bool, choose func(int
 		}
 	})
 	return cfg, pn, b.used
+}
+
+// c06CheckOnRegister: every handler's OnRegister callback is told, exactly once, the
+// full pattern it was registered with - in whatever order the tree of Mux values was
+// put together and attached to the service (handlers added before or after their Mux
+// was mounted, at any nesting depth). A Mux built on its own is attached to a service here.
+func c06CheckOnRegister(c *core.Ctx, cfg *c06Config) {
+	prefix := ""
+	desc := map[string]interface{}{"arrangement": cfg.arr, "root_path": cfg.rootPath}
+	if cfg.service == nil {
+		if len(cfg.registered) > 0 {
+			c.Violation("C06/onregister:called-without-service", fmt.Sprintf("OnRegister callbacks ran although the Mux is not attached to a service: %v", cfg.registered), desc)
+			return
+		}
+		cfg.service = res.NewService("top")
+		at := ""
+		if cfg.rootPath == "" {
+			at = "mnt"
+		}
+		prefix = mergeDots("top", at)
+		desc["attached_late_at"] = prefix
+		if pn := try(func() { cfg.service.Mount(at, cfg.mux) }); pn != nil {
+			c.Violation("C06/onregister:mount-panics", fmt.Sprintf("mounting the finished Mux on a service panicked: %v", pn), desc)
+			return
+		}
+	}
+	c.Eval(1)
+	c.Obs("onregister_configs", 1)
+	for _, rt := range cfg.routes {
+		want := mergeDots(prefix, rt.Pattern)
+		got := cfg.registered[rt.Marker]
+		c.Obs("onregister_callbacks", int64(len(got)))
+		if len(got) != 1 || got[0] != want {
+			desc["pattern"], desc["reported"] = want, got
+			var ps []string
+			for _, x := range cfg.routes {
+				ps = append(ps, x.Pattern)
+			}
+			desc["patterns"] = ps
+			kind := "wrong-pattern"
+			if len(got) != 1 {
+				kind = fmt.Sprintf("called-%d-times", len(got))
+			}
+			c.Violation("C06/onregister:"+kind, fmt.Sprintf("the handler registered as %q was told %q by OnRegister (arrangement %s)", want, got, cfg.arr), desc)
+			return
+		}
+	}
 }
 
 // c06CheckLookup compares one lookup with the reference. Returns whether the
@@ -499,6 +563,7 @@ func c06Enum(c *core.Ctx, p c06Params) {
 				c06CheckLookup(c, cfg, "svcx.a")
 				c06CheckLookup(c, cfg, "sv")
 			}
+			c06CheckOnRegister(c, cfg)
 		}
 		if idx%977 == 0 {
 			c.Sample(map[string]interface{}{"pattern_set": set, "names": len(names), "arrangements": arrCount + 1})
@@ -670,6 +735,7 @@ func c06Random(c *core.Ctx, p c06Params) {
 				c.Distinct(fmt.Sprintf("%d/%d/%s", p.Shard, i, name))
 			}
 		}
+		c06CheckOnRegister(c, cfg)
 		if i == 3 {
 			var ps []string
 			for _, rt := range routes {
@@ -802,6 +868,38 @@ func c06Hostile(c *core.Ctx, p c06Params) {
 			c06CheckLookup(c, cfg, s)
 			c06CheckLookup(c, cfg, mergeDots(rootPath, s))
 			c.Distinct("h:" + s)
+		}
+		// an invalid pattern stays invalid whatever was registered before it: the same
+		// placeholder name at two positions where accepted patterns already have placeholders
+		for _, rt := range routes {
+			toks := ref.Tokens(strings.TrimPrefix(strings.TrimPrefix(rt.Pattern, rootPath), "."))
+			if rootPath == "" {
+				toks = ref.Tokens(rt.Pattern)
+			}
+			nph := 0
+			for i, t := range toks {
+				switch ref.ClassifyToken(t) {
+				case ref.TokTag, ref.TokAnon:
+					nph++
+					toks[i] = "$dup"
+					if nph > 2 {
+						toks[i] = fmt.Sprintf("$k%d", i)
+					}
+				case ref.TokFull:
+					toks = toks[:i]
+				}
+			}
+			if nph < 2 {
+				continue
+			}
+			bad := strings.Join(append(toks, "dupleaf"), ".")
+			c.Eval(1)
+			c.Obs("late_invalid_registrations", 1)
+			if pn := try(func() { cfg.mux.AddHandler(bad, res.Handler{}) }); pn == nil {
+				c.Violation("C06/accepts-invalid:dup-tag-after-earlier-registrations", fmt.Sprintf("AddHandler(%q) was accepted on a Mux that already held %q: the placeholder name $dup occurs twice", bad, rt.Pattern),
+					map[string]interface{}{"pattern": bad, "registered_before": routes, "root_path": rootPath})
+				break
+			}
 		}
 	}
 	c.Sample(map[string]interface{}{"hostile_names": hostile[:12]})
